@@ -1850,8 +1850,15 @@ _C16_REPS = ["U.S.", "U. S.", "F.2d", "F. 2d", "F.3d", "S. Ct.", "S.Ct.", "L. Ed
 _NOMINATIVE = ["Dall.", "Cranch", "Wheat.", "Pet.", "How.", "Black", "Wall."]
 
 
+_C16_YEAR_REPS = ["Am. Law Reg.", "Chi. Leg. News", "Brown Adm."]     # formats "$volume $reporter ($year) $page": an extra regex group that must not matter
+
+
 def _c16_texts(rng: random.Random, k: int) -> List[str]:
     out = []
+    # the same (volume, reporter, page) written with and without the optional year group, and with two different years
+    rep = rng.choice(_C16_YEAR_REPS)
+    v, pg = rng.choice(["3", "14"]), rng.choice(["10", "120"])
+    out += [f"{v} {rep} {pg}", f"{v} {rep} (1866) {pg}", f"See {v} {rep} (1867) {pg}."]
     for _ in range(k):
         rep = rng.choice(_C16_REPS)
         vol, page = rng.choice(["1", "2", "10"]), rng.choice(["1", "5", "100", "___", "_", "__", "_____"])
